@@ -1,0 +1,189 @@
+//go:build verif
+
+package hash
+
+// Contracts for package hash, checked by /verif/govc.  Comment-only file.
+//
+// Property C09 (loop-free part): every Hashable is an equivalence relation
+// that holds exactly when the components are pairwise Eqv, and Eqv-equal
+// values have equal hashes.  No clause fixes the numeric value of a hash:
+// any deterministic function compatible with Eqv is acceptable.
+// Seq / Slice / String (loops) and Bytes (external functions) are not covered.
+
+//@ import "github.com/csgura/fp/internal/veriflaws"
+//@ import "github.com/csgura/fp/hlist"
+//@ import "github.com/csgura/fp/lazy"
+//
+// ---- New ----------------------------------------------------------------------
+//
+//@ lemma newHash[T any](e fp.Eq[T], f func(T) uint32, x T, y T, z T)
+//@   prop C09
+//@   requires veriflaws.EqLaws(e) && veriflaws.HashFnRespects(e, f)
+//@   ensures New(e, f).Eqv(x, y) == e.Eqv(x, y)
+//@   tag def
+//@   ensures New(e, f).Hash(x) == f(x)
+//@   tag hashdef
+//@   ensures New(e, f).Eqv(x, y) ==> New(e, f).Hash(x) == New(e, f).Hash(y)
+//@   tag hash
+//@   ensures veriflaws.HashLaws(New(e, f))
+//@   tag laws
+//
+// ---- Number ---------------------------------------------------------------------
+//
+//@ lemma numberHash[T fp.ImplicitNum](x T, y T, z T)
+//@   prop C09
+//@   inst int64
+//@   ensures Number[T]().Eqv(x, y) == (x == y)
+//@   tag def
+//@   ensures Number[T]().Eqv(x, x)
+//@   tag refl
+//@   ensures Number[T]().Eqv(x, y) == Number[T]().Eqv(y, x)
+//@   tag sym
+//@   ensures Number[T]().Eqv(x, y) && Number[T]().Eqv(y, z) ==> Number[T]().Eqv(x, z)
+//@   tag trans
+//
+// Separate item: hashUint64 contains a loop (`for value > 0xffffffff`) for
+// which the verifier has no invariant yet; expected `undecided`.
+//@ lemma numberHashCompat[T fp.ImplicitNum](x T, y T)
+//@   prop C09
+//@   inst int64
+//@   ensures Number[T]().Eqv(x, y) ==> Number[T]().Hash(x) == Number[T]().Hash(y)
+//@   tag hash
+//
+// ---- HNil -----------------------------------------------------------------------
+//
+//@ lemma hnilHash(x hlist.Nil, y hlist.Nil)
+//@   prop C09
+//@   ensures HNil.Eqv(x, y)
+//@   tag def
+//@   ensures HNil.Hash(x) == HNil.Hash(y)
+//@   tag hash
+//@   ensures veriflaws.HashLaws(HNil)
+//@   tag laws
+//
+// ---- Tuple1 -----------------------------------------------------------------------
+//
+//@ lemma tuple1Hash[A1 any](h1 fp.Hashable[A1], x fp.Tuple1[A1], y fp.Tuple1[A1], z fp.Tuple1[A1])
+//@   prop C09
+//@   requires veriflaws.HashLaws(h1)
+//@   ensures Tuple1(h1).Eqv(x, y) == h1.Eqv(x.I1, y.I1)
+//@   tag def
+//@   ensures Tuple1(h1).Eqv(x, x)
+//@   tag refl
+//@   ensures Tuple1(h1).Eqv(x, y) == Tuple1(h1).Eqv(y, x)
+//@   tag sym
+//@   ensures Tuple1(h1).Eqv(x, y) && Tuple1(h1).Eqv(y, z) ==> Tuple1(h1).Eqv(x, z)
+//@   tag trans
+//@   ensures Tuple1(h1).Eqv(x, y) ==> Tuple1(h1).Hash(x) == Tuple1(h1).Hash(y)
+//@   tag hash
+//@   ensures veriflaws.HashLaws(Tuple1(h1))
+//@   tag laws
+//
+// ---- Option -----------------------------------------------------------------------
+//
+//@ lemma optionHash[T any](h fp.Hashable[T], x fp.Option[T], y fp.Option[T], z fp.Option[T])
+//@   prop C09
+//@   requires veriflaws.HashLaws(h)
+//@   ensures Option(h).Eqv(x, y) == ((x.IsEmpty() && y.IsEmpty()) || (x.IsDefined() && y.IsDefined() && h.Eqv(x.Get(), y.Get())))
+//@   tag def
+//@   ensures Option(h).Eqv(x, x)
+//@   tag refl
+//@   ensures Option(h).Eqv(x, y) == Option(h).Eqv(y, x)
+//@   tag sym
+//@   ensures Option(h).Eqv(x, y) && Option(h).Eqv(y, z) ==> Option(h).Eqv(x, z)
+//@   tag trans
+//@   ensures Option(h).Eqv(x, y) ==> Option(h).Hash(x) == Option(h).Hash(y)
+//@   tag hash
+//@   ensures veriflaws.HashLaws(Option(h))
+//@   tag laws
+//
+// ---- Ptr --------------------------------------------------------------------------
+//
+//@ lemma ptrHash[T any](h fp.Hashable[T], x *T, y *T, z *T)
+//@   prop C09
+//@   requires veriflaws.HashLaws(h)
+//@   ensures Ptr(lazy.Done(h)).Eqv(x, y) == ((x == nil && y == nil) || (x != nil && y != nil && h.Eqv(*x, *y)))
+//@   tag def
+//@   ensures Ptr(lazy.Done(h)).Eqv(x, x)
+//@   tag refl
+//@   ensures Ptr(lazy.Done(h)).Eqv(x, y) == Ptr(lazy.Done(h)).Eqv(y, x)
+//@   tag sym
+//@   ensures Ptr(lazy.Done(h)).Eqv(x, y) && Ptr(lazy.Done(h)).Eqv(y, z) ==> Ptr(lazy.Done(h)).Eqv(x, z)
+//@   tag trans
+//@   ensures Ptr(lazy.Done(h)).Eqv(x, y) ==> Ptr(lazy.Done(h)).Hash(x) == Ptr(lazy.Done(h)).Hash(y)
+//@   tag hash
+//@   ensures veriflaws.HashLaws(Ptr(lazy.Done(h)))
+//@   tag laws
+//
+// ---- ContraMap ----------------------------------------------------------------------
+//
+//@ lemma contraMapHash[T, U any](h fp.Hashable[T], fn func(U) T, x U, y U, z U)
+//@   prop C09
+//@   requires veriflaws.HashLaws(h)
+//@   ensures ContraMap(h, fn).Eqv(x, y) == h.Eqv(fn(x), fn(y))
+//@   tag def
+//@   ensures ContraMap(h, fn).Eqv(x, x)
+//@   tag refl
+//@   ensures ContraMap(h, fn).Eqv(x, y) == ContraMap(h, fn).Eqv(y, x)
+//@   tag sym
+//@   ensures ContraMap(h, fn).Eqv(x, y) && ContraMap(h, fn).Eqv(y, z) ==> ContraMap(h, fn).Eqv(x, z)
+//@   tag trans
+//@   ensures ContraMap(h, fn).Eqv(x, y) ==> ContraMap(h, fn).Hash(x) == ContraMap(h, fn).Hash(y)
+//@   tag hash
+//@   ensures veriflaws.HashLaws(ContraMap(h, fn))
+//@   tag laws
+//
+// ---- HCons ------------------------------------------------------------------------
+//
+//@ lemma hconsHash[H any, T hlist.HList](hh fp.Hashable[H], th fp.Hashable[T], x hlist.Cons[H, T], y hlist.Cons[H, T], z hlist.Cons[H, T])
+//@   prop C09
+//@   inst VT_0, hlist.Cons[VT_1, hlist.Nil]
+//@   requires veriflaws.HashLaws(hh) && veriflaws.HashLaws(th)
+//@   ensures HCons(hh, th).Eqv(x, y) == (hh.Eqv(hlist.Head(x), hlist.Head(y)) && th.Eqv(hlist.Tail(x), hlist.Tail(y)))
+//@   tag def
+//@   ensures HCons(hh, th).Eqv(x, x)
+//@   tag refl
+//@   ensures HCons(hh, th).Eqv(x, y) == HCons(hh, th).Eqv(y, x)
+//@   tag sym
+//@   ensures HCons(hh, th).Eqv(x, y) && HCons(hh, th).Eqv(y, z) ==> HCons(hh, th).Eqv(x, z)
+//@   tag trans
+//@   ensures HCons(hh, th).Eqv(x, y) ==> HCons(hh, th).Hash(x) == HCons(hh, th).Hash(y)
+//@   tag hash
+//@   ensures veriflaws.HashLaws(HCons(hh, th))
+//@   tag laws
+//
+//@ lemma hconsNilHash[H any](hh fp.Hashable[H], th fp.Hashable[hlist.Nil], x hlist.Cons[H, hlist.Nil], y hlist.Cons[H, hlist.Nil], z hlist.Cons[H, hlist.Nil])
+//@   prop C09
+//@   requires veriflaws.HashLaws(hh) && veriflaws.HashLaws(th)
+//@   ensures HCons(hh, th).Eqv(x, y) == (hh.Eqv(hlist.Head(x), hlist.Head(y)) && th.Eqv(hlist.Tail(x), hlist.Tail(y)))
+//@   tag def
+//@   ensures HCons(hh, th).Eqv(x, y) ==> HCons(hh, th).Hash(x) == HCons(hh, th).Hash(y)
+//@   tag hash
+//@   ensures veriflaws.HashLaws(HCons(hh, th))
+//@   tag laws
+//
+//@ lemma hcons2Hash[A1, A2 any](h1 fp.Hashable[A1], h2 fp.Hashable[A2], a1 A1, a2 A2, b1 A1, b2 A2)
+//@   prop C09
+//@   requires veriflaws.HashLaws(h1) && veriflaws.HashLaws(h2)
+//@   ensures HCons(h1, HCons(h2, HNil)).Eqv(hlist.Concat(a1, hlist.Concat(a2, hlist.Empty())), hlist.Concat(b1, hlist.Concat(b2, hlist.Empty()))) == (h1.Eqv(a1, b1) && h2.Eqv(a2, b2))
+//@   tag def
+//@   ensures h1.Eqv(a1, b1) && h2.Eqv(a2, b2) ==> HCons(h1, HCons(h2, HNil)).Hash(hlist.Concat(a1, hlist.Concat(a2, hlist.Empty()))) == HCons(h1, HCons(h2, HNil)).Hash(hlist.Concat(b1, hlist.Concat(b2, hlist.Empty())))
+//@   tag hash
+//
+// ---- Tuple2 .. Tuple21 --------------------------------------------------------------
+//
+//@ schema N=2..21
+//@ lemma tuple{N}Hash[<<i=1..N|, |A$i>> any](<<i=1..N|, |h$i fp.Hashable[A$i]>>, x fp.Tuple{N}[<<i=1..N|, |A$i>>], y fp.Tuple{N}[<<i=1..N|, |A$i>>], z fp.Tuple{N}[<<i=1..N|, |A$i>>])
+//@   prop C09
+//@   requires <<i=1..N| && |veriflaws.HashLaws(h$i)>>
+//@   ensures Tuple{N}(<<i=1..N|, |h$i>>).Eqv(x, y) == (<<i=1..N| && |h$i.Eqv(x.I$i, y.I$i)>>)
+//@   tag def
+//@   ensures Tuple{N}(<<i=1..N|, |h$i>>).Eqv(x, x)
+//@   tag refl
+//@   ensures Tuple{N}(<<i=1..N|, |h$i>>).Eqv(x, y) == Tuple{N}(<<i=1..N|, |h$i>>).Eqv(y, x)
+//@   tag sym
+//@   ensures Tuple{N}(<<i=1..N|, |h$i>>).Eqv(x, y) && Tuple{N}(<<i=1..N|, |h$i>>).Eqv(y, z) ==> Tuple{N}(<<i=1..N|, |h$i>>).Eqv(x, z)
+//@   tag trans
+//@   ensures Tuple{N}(<<i=1..N|, |h$i>>).Eqv(x, y) ==> Tuple{N}(<<i=1..N|, |h$i>>).Hash(x) == Tuple{N}(<<i=1..N|, |h$i>>).Hash(y)
+//@   tag hash
+//@ schema end
